@@ -44,6 +44,11 @@ def to_string(case, patterns=None, dc=None):
             with DescriptorFormat("{mother} ~> {daughters}", "<<{mother} ~> {daughters}>>"):
                 pass
             try:
+                with DescriptorFormat("{mother} ~~> {daughters}", "<{mother} ~~> {daughters}>"):
+                    raise LookupError("an inner block left through an exception")
+            except LookupError:
+                pass
+            try:
                 DescriptorFormat.set_config("{mother} !! {daughters}", "({mother} !! {daughter})")
             except ValueError:
                 pass
